@@ -908,7 +908,7 @@ def _check_evaluate(ctx, rep, ev: FuncInfo):
     if not chain:
         return _check_evaluate_one(ctx, rep, ev, first=True, last=True)
     chain.reverse()
-    seen_loads = any(any(t.kind == 'ext' and t.name == 'json.loads' for t in ts) for f in chain for _, ts in ctx.cg.calls_in(f))
+    seen_loads = any(any(t.kind == 'ext' and t.name == 'json.loads' for t in ts) for f in chain for _, ts in ctx.cg.calls_in(f)) or any(_decoder_alias_calls(ctx, f) for f in chain)
     rep.oblige('evaluate parses with json.loads', seen_loads, '', ev.loc(), key='evaluate uses json.loads', positive=False)
     filt_any = False
     for i, f in enumerate(chain):
@@ -917,9 +917,25 @@ def _check_evaluate(ctx, rep, ev: FuncInfo):
                key='penman.constant:evaluate: isinstance filter', positive=False)
 
 
+def _decoder_alias_calls(ctx, ev: FuncInfo):
+    """calls of a module-level name bound to json.JSONDecoder(<hooks>).decode: the same decoder as json.loads(text, <hooks>); -> [(call, keywords)]"""
+    out = []
+    for c in walk_local(ev.node):
+        if isinstance(c, ast.Call) and isinstance(c.func, ast.Name) and c.func.id in ev.module.constants:
+            d = ev.module.constants[c.func.id]
+            if isinstance(d, ast.Attribute) and d.attr == 'decode' and isinstance(d.value, ast.Call) and norm(d.value.func) in ('json.JSONDecoder', 'JSONDecoder') and not d.value.args:
+                out.append((c, d.value.keywords))
+    return out
+
+
 def _check_evaluate_one(ctx, rep, ev: FuncInfo, first: bool, last: bool, quiet: bool = False):
     p = ev.positional[0]
     loads = [c for c, ts in ctx.cg.calls_in(ev) if any(t.kind == 'ext' and t.name == 'json.loads' for t in ts)]
+    alias_kw = {}
+    for c_, kws_ in _decoder_alias_calls(ctx, ev):
+        if len(c_.args) == 1 and not c_.keywords:
+            loads.append(c_)
+            alias_kw[id(c_)] = kws_
     if not quiet:
         rep.oblige('evaluate parses with json.loads', len(loads) >= 1, '', ev.loc(), key='evaluate uses json.loads', positive=False)
     cfg = CFG(ev.node)
@@ -930,7 +946,7 @@ def _check_evaluate_one(ctx, rep, ev: FuncInfo, first: bool, last: bool, quiet: 
         arg_ok = isinstance(a0, ast.Name) and a0.id == p
         rep.oblige('json.loads receives the constant text unchanged', arg_ok, norm(c), ev.loc(c),
                    key=f'penman.constant:evaluate: {norm(c)} argument', positive=False)
-        kws = {k.arg: norm(k.value) for k in c.keywords}
+        kws = {k.arg: norm(k.value) for k in (alias_kw[id(c)] if id(c) in alias_kw else c.keywords)}
         good = kws == {'parse_constant': 'str'}
         rep.oblige('json.loads hooks: parse_constant=str and nothing else (NaN/Infinity stay text; no float/int/object hooks)',
                    good, f'keywords {kws}', ev.loc(c), key=f'penman.constant:evaluate: json.loads hooks', positive=True)
@@ -1038,6 +1054,8 @@ def _check_evaluate_one(ctx, rep, ev: FuncInfo, first: bool, last: bool, quiet: 
         if e is None or (isinstance(e, ast.Constant) and e.value is None):
             return True
         if isinstance(e, ast.Call) and dotted(e.func) == 'json.loads':
+            return True
+        if isinstance(e, ast.Call) and any(e is c_ for c_, _ in _decoder_alias_calls(ctx, ev)):
             return True
         if isinstance(e, ast.IfExp):
             return ok_source(e.body, at, depth + 1) and ok_source(e.orelse, at, depth + 1)
